@@ -175,6 +175,26 @@ class VecInterp(SE.Interp):
                     return v & ((1 << {"u32": 32, "u16": 16, "u8": 8}[ty]) - 1)
         if k == "match" and e0.get("src") == "ForLoopDesugar":
             return self.for_loop(e0, env)
+        if k == "call" and (H.path_of(H.unwrap(e0["f"])) or "").startswith("core::panicking::"):
+            raise H.Unsupported("reaches a panic (%s)" % ((e0.get("macro") or {}).get("snippet") or H.path_of(H.unwrap(e0["f"]))))
+        if k == "mcall" and e0.get("name") in ("next", "next_back", "take") and not e0.get("args") and H.is_k(H.unwrap(e0["recv"]), "field"):
+            # an iterator / Option held in a FIELD and consumed in place (`self.iter.next()`, `self.rest.take()`)
+            r0 = H.unwrap(e0["recv"])
+            base = self.ev(r0["base"], env)
+            if isinstance(base, tuple) and base and base[0] == "obj" and r0["name"] in base[2]:
+                cur = base[2][r0["name"]]
+                if e0["name"] == "take" and "option::Option" in str(e0.get("callee", "")):
+                    base[2][r0["name"]] = H.NONE_V
+                    return cur
+                if isinstance(cur, (Vec, View)):
+                    cur = ("iter", list(cur.items if isinstance(cur, Vec) else cur.get()))
+                if e0["name"] != "take" and isinstance(cur, tuple) and cur and cur[0] == "iter":
+                    xs = list(cur[1])
+                    if not xs:
+                        return H.NONE_V
+                    x = xs.pop(0) if e0["name"] == "next" else xs.pop()
+                    base[2][r0["name"]] = ("iter", xs)
+                    return H.some(x)
         if k == "mcall" and e0.get("name") in ("next", "next_back") and not e0.get("args"):
             # an iterator held in a local and advanced by hand (`while let Some(x) = it.next()`): the local is consumed
             r0 = H.unwrap(e0["recv"])
@@ -346,6 +366,24 @@ class VecInterp(SE.Interp):
         return super().ext_call(fp, args)
 
     def ext_method(self, name, callee, recv, args):
+        if isinstance(recv, tuple) and recv and recv[0] == "obj" and name in ("collect", "next", "count", "last"):
+            nxt = [fn for fn in self.facts.hir if fn.startswith("<%s" % recv[1]) and fn.endswith(" as core::iter::traits::iterator::Iterator>::next")]
+            if len(nxt) == 1:
+                if name == "next":
+                    return self.call_fn(nxt[0], [recv])
+                out = []
+                for _ in range(2000):
+                    r = self.call_fn(nxt[0], [recv])
+                    if r == H.NONE_V:
+                        break
+                    if not (isinstance(r, tuple) and r[0] == "v" and r[1] == H.SOME):
+                        raise H.Unsupported("iterator step gives %r" % (r,))
+                    out.append(r[2][0])
+                else:
+                    raise H.Unsupported("iterator does not terminate within 2000 steps")
+                return Vec(out) if name == "collect" else len(out) if name == "count" else (H.some(out[-1]) if out else H.NONE_V)
+        if name == "or_else" and len(args) == 1 and isinstance(recv, tuple) and recv and recv[0] == "v" and recv[1] in (H.SOME, H.NONE_V[1]):
+            return recv if recv != H.NONE_V else self.call_closure(args[0], [])
         if isinstance(recv, bool) and name == "then_some" and len(args) == 1:
             return H.some(args[0]) if recv else H.NONE_V
         if isinstance(recv, bool) and name == "then" and len(args) == 1:
@@ -449,6 +487,16 @@ class VecInterp(SE.Interp):
                 for i, x in enumerate(xs):
                     if self.call_closure(args[0], [x]) is True:
                         return H.some(i)
+                return H.NONE_V
+            if name == "rposition":
+                for i in range(len(xs) - 1, -1, -1):
+                    if self.call_closure(args[0], [xs[i]]) is True:
+                        return H.some(i)
+                return H.NONE_V
+            if name in ("find", "rfind"):
+                for x in (xs if name == "find" else list(reversed(xs))):
+                    if self.call_closure(args[0], [x]) is True:
+                        return H.some(x)
                 return H.NONE_V
             if name == "for_each":
                 for x in xs:
